@@ -94,17 +94,28 @@ def run_with_queries(case, qs):
     P = C.plain_part_class(case["part"], case.get("part_binding"))
     out = {"points": [], "last": None, "crash": None}
     seq = C.open_rewards(case["reward"]["family"], case["reward"]["seed"], max(case["T"], 1))
+    budget = C.StepBudget(5 * 10 ** 6)  # logical steps per API call (a hang ends the run whatever the machine load)
     try:
         np.random.seed(case["np_seed"])
+        budget.on()
+        budget.reset()
         algo = C.build(case, P)
         for i in range(case["T"]):
+            budget.reset()
             p = algo.pull(i + 1)
             out["points"].append(list(p))
+            budget.reset()
             algo.receive_reward(i + 1, float(seq[i]))
             for _ in range(qs.get(i, 0)):
+                budget.reset()
                 algo.get_last_point()
+        budget.reset()
         q = algo.get_last_point()
         out["last"] = list(q)
+    except C.StepBudgetExceeded:
+        out["crash"] = "StepBudgetExceeded: more than 5e6 PyXAB function entries in one API call (hang)"
     except Exception as e:
         out["crash"] = "%s: %s" % (type(e).__name__, str(e)[:100])
+    finally:
+        budget.off()
     return out
